@@ -56,6 +56,7 @@ def cases(tier, seed):
     out = []
     sc_ = [("none-uniform", (4, 4, 4), None, "uniform", (0, 0, 0)), ("periodic-uniform", (4, 4, 4), "periodic", "uniform", (0, 0, 0)),
            ("pec-nonuniform", (5, 4, 3), "pec", "nonuniform", (0, 0, 0)), ("symmetry-x", (8, 4, 3), "periodic", "uniform", (-1, 0, 0)),
+           ("symmetry-xy", (6, 6, 3), "pec", "uniform", (-1, -1, 0)),   # two electric planes: the halo edge shared by both is a double mirror (H_z)
            ("mixed-nonuniform", (5, 4, 3), {"min_x": "pmc", "max_x": "pec", "min_y": "pec", "max_y": "pmc", "min_z": "pec", "max_z": "pec"}, "nonuniform", (0, 0, 0))]
     if tier != "quick":
         sc_ += [("symmetry-y", (4, 8, 3), "pec", "uniform", (0, -1, 0)), ("symmetry-xz", (6, 3, 6), None, "uniform", (-1, 0, -1)),
